@@ -51,7 +51,7 @@ def mir_dump(features=''):
     """Dump the MIR of /repo's lib crate (dev profile: debug assertions and overflow checks on).
     The dump is keyed by a hash of the working tree, so an edited tree is always re-dumped."""
     os.makedirs(TARGET, exist_ok=True)
-    key = src_hash() + ('-' + features.replace(',', '_') if features else '')
+    key = src_hash() + 'v2' + ('-' + features.replace(',', '_') if features else '')
     out = os.path.join(TARGET, 'mir-%s.txt' % key)
     if os.path.exists(out) and os.path.getsize(out) > 1000000:
         return out, 0.0
@@ -73,7 +73,8 @@ def mir_dump(features=''):
     cmd = ['cargo', '+nightly', 'rustc', '--offline', '--lib']
     if features:
         cmd += ['--features', features]
-    cmd += ['--', '-Zunpretty=mir']
+    # the alignment/null/enum UB-check passes only add instrumentation blocks; they are not semantics
+    cmd += ['--', '-Zunpretty=mir', '-Zmir-enable-passes=-CheckAlignment,-CheckNull,-CheckEnums']
     tmp = out + '.tmp'
     with open(tmp, 'w') as fo:
         p = subprocess.run(cmd, cwd=REPO, env=env, stdout=fo, stderr=subprocess.PIPE, text=True)
